@@ -478,8 +478,21 @@ func runScenario(seed int64, scn int, maxSubs int) ([]Event, bool) {
 		id := ids[r.Intn(len(ids))]
 		script = append([]scriptMsg{{"subscribe", id, "qf"}, {"unsubscribe", id, ""}, {"subscribe", id, "qa"}}, script[:r.Intn(3)]...)
 	}
+	// the end of a subscription racing a RE-run's write-then-read delay: the rerunner sleeps with its lock held,
+	// the unsubscribe (or the close of the socket) has to wait for that run and nothing may happen after it
+	rx.WriteThenReadDelay = 0
+	inDelay := !directed && r.Intn(5) == 0
+	if inDelay {
+		rx.WriteThenReadDelay = 3 * time.Millisecond
+		id := ids[r.Intn(len(ids))]
+		script = append([]scriptMsg{{"subscribe", id, "qa"}, {"change", "", ""}, {"unsubscribe", id, ""}}, script[:r.Intn(3)]...)
+		if r.Intn(3) == 0 {
+			script = script[:2] // the socket closes instead
+		}
+	}
+	defer func() { rx.WriteThenReadDelay = 0 }()
 	var wg sync.WaitGroup
-	if r.Intn(5) == 0 {
+	if !inDelay && r.Intn(5) == 0 {
 		// the server cancels the connection's context at some moment while the socket stays open
 		wg.Add(1)
 		d := time.Duration(r.Intn(2500)) * time.Microsecond
@@ -504,8 +517,14 @@ func runScenario(seed int64, scn int, maxSubs int) ([]Event, bool) {
 	for k, m := range script {
 		if directed && k < 3 {
 			time.Sleep(time.Duration(300+r.Intn(300)) * time.Microsecond)
+		} else if inDelay && k < 3 {
+			time.Sleep(time.Duration(1200+r.Intn(800)) * time.Microsecond)
 		} else {
 			time.Sleep(time.Duration(r.Intn(700)) * time.Microsecond)
+		}
+		if m.typ == "change" {
+			h.change("env")
+			continue
 		}
 		var msg json.RawMessage
 		if m.typ == "subscribe" || m.typ == "mutate" {
